@@ -40,6 +40,7 @@ def ident(real, made):
 
 def run_history(h, peer, rnd, cfg):
     made = []
+    reuse = rnd.random() < 0.7
     init = mkdict(h[0], rnd)
     made.append((h[0], init))
     proxy = jsonrpc.ServerProxy(peer.url(), headers=init, config=cfg, version=rnd.choice([1.0, 2.0]))
@@ -53,7 +54,9 @@ def run_history(h, peer, rnd, cfg):
         n0 = len(peer.requests)
         try:
             if k == "enter":
-                d = mkdict(e[1], rnd)
+                # the same dictionary OBJECT is often handed in again (a module-level constant of the application)
+                again = [obj for (i, obj) in made if i == e[1]]
+                d = again[-1] if again and reuse else mkdict(e[1], rnd)
                 made.append((e[1], d))
                 cm = proxy._additional_headers(d)
                 cm.__enter__()
@@ -66,6 +69,8 @@ def run_history(h, peer, rnd, cfg):
                     cms.pop().__exit__(Boom, ex, None)
                 except Boom:
                     pass
+            elif k == "close":
+                proxy("close")()
             elif k == "call":
                 proxy.ping(1, "é")
             elif k == "notify":
